@@ -157,7 +157,7 @@ macro_rules! comp_pod {
 }
 
 fn mask_ids<T: Comp>(s: &ReadStorage<T>) -> Vec<u32> {
-    use hibitset::BitSetLike;
+    use specs::hibitset::BitSetLike;
     s.mask().iter().collect()
 }
 
@@ -178,10 +178,18 @@ macro_rules! tracked_fns {
             out
         }
         fn register_reader(s: &mut WriteStorage<Self>) -> Option<Box<dyn std::any::Any + Send>> {
-            Some(Box::new(s.register_reader()))
+            // the two public ways of getting a reader: the shorthand on the storage, and the event channel itself
+            if Self::KIND % 2 == 1 { Some(Box::new(s.channel_mut().register_reader())) } else { Some(Box::new(s.register_reader())) }
         }
+        #[cfg(not(feature = "np"))]
         fn set_emit(s: &mut WriteStorage<Self>, b: bool) {
             s.set_event_emission(b);
+        }
+        // (the `np` build of the harness is against specs without `storage-event-control`: no such call, and the
+        //  generators produce no `emit` op — see `NO_EVENT_CONTROL`)
+        #[cfg(feature = "np")]
+        fn set_emit(_s: &mut WriteStorage<Self>, _b: bool) {
+            panic!("emit op in a build without storage-event-control");
         }
     };
 }
@@ -340,6 +348,8 @@ impl Comp for CFVecZ {
 }
 
 pub const NUM_KINDS: usize = 12;
+/// The harness is built against specs without the `storage-event-control` feature (`harness/np`).
+pub const NO_EVENT_CONTROL: bool = cfg!(feature = "np");
 
 macro_rules! with_kind {
     ($k:expr, $T:ident => $body:expr) => {
@@ -1190,7 +1200,7 @@ fn exec_inner(world: &mut World, ctx: &Shared, op: &Op) -> String {
 }
 
 fn mask_ids_w<T: Comp>(s: &WriteStorage<T>) -> Vec<u32> {
-    use hibitset::BitSetLike;
+    use specs::hibitset::BitSetLike;
     s.mask().iter().collect()
 }
 
@@ -1535,6 +1545,22 @@ pub fn gen_store_script(rng: &mut Rng, len: usize, p: &StoreProfile) -> Vec<Op> 
         }
         ops.push(op);
     }
+    if p.far_apart && !p.faults && rng.chance(1, 3) {
+        // `delete_all` over a population whose low indices have been thinned out (few entities below 64, many above):
+        // the order in which it retires the entities shows in the events of tracked storages and in the handles of the
+        // creations that follow (free list)
+        let keep_low = rng.range(1, 6) as usize;
+        let victims: Vec<usize> = (keep_low..60.min(nlog)).collect();
+        if victims.len() >= 8 {
+            for chunk in victims.chunks(16) { ops.push(Op::DelBatch(chunk.to_vec())); }
+            if rng.chance(1, 2) { ops.push(Op::Maintain); }
+            for &k in &p.kinds { if k >= 6 { ops.push(Op::Events(k)); } }
+            ops.push(Op::DelAll);
+            for &k in &p.kinds { if k >= 6 { ops.push(Op::Events(k)); } }
+            ops.push(Op::CreateIter { atomic: false, n: 12 });
+            nlog += 12;
+        }
+    }
     if p.lazy && !p.faults && rng.chance(1, 10) {
         // a long chain of lazily queued scripts, each of which queues the next one (40–70 links): all of them run, in
         // order, inside ONE maintain
@@ -1582,7 +1608,7 @@ pub fn random_profile(rng: &mut Rng, focus: &str) -> StoreProfile {
         kinds,
         lazy: focus != "fault" && focus != "churn" && focus != "faultchurn" && (focus == "lazy" || rng.chance(1, 3)),
         rjoin: focus == "rjoin" || (focus == "tracked" && rng.chance(1, 2)) || (focus != "fault" && focus != "faultchurn" && rng.chance(1, 4)),
-        emit_toggle: focus == "tracked" && rng.chance(1, 2),
+        emit_toggle: focus == "tracked" && rng.chance(1, 2) && !NO_EVENT_CONTROL,
         clear: focus == "churn" || focus == "faultchurn" || (focus != "tracked" && rng.chance(1, 2)),
         far_apart: focus == "far" || rng.chance(1, 30),
         drop_world: focus == "ledger" || focus == "fault" || focus == "faultchurn" || rng.chance(1, 4),
